@@ -55,7 +55,7 @@ func fastPathObserver(obs string) bool {
 
 var specC01 = &worldSpec{
 	Prop: "C01",
-	Profile: &Profile{MinSteps: 20, MaxSteps: 70, W: weights(map[string]int{"replay": 8, "hold": 4, "reload": 5, "reload_invalid": 1}),
+	Profile: &Profile{MinSteps: 20, MaxSteps: 70, W: weights(map[string]int{"replay": 8, "hold": 4, "reload": 5, "reload_invalid": 1, "setinit": 1}),
 		Backends: []string{"mem", "mem", "mem", "trace", "prefix", "prefix"}},
 	Obs:  Observers{Reads: true},
 	Rule: "history of 20-70 steps over {set,remove,setnil,save,rollback,reopen(cfg re-drawn, latest|older),reload(LoadVersion on the live handle, latest|older; out-of-range targets must fail without effect),hold(an ImmutableTree kept and re-read after every later step),replay(after a reopen at an older version: the recorded writes of the next existing version + its idempotent re-commit),prune,lvfo,dvf}; non-trivial = >=2 commits, a retained or past version with >=2 keys, and at least one of {removal, reopen, prune, rollback}; distinct = sha256 of the JSON history",
@@ -80,7 +80,7 @@ func trackMaxKeys(w *World, op Op) *Violation {
 var specC02 = &worldSpec{
 	Prop: "C02",
 	Profile: &Profile{MinSteps: 20, MaxSteps: 70,
-		W:        weights(map[string]int{"read": 22, "hop": 2, "setnil": 0, "remove": 16, "replay": 12, "hold": 3, "reload": 4}),
+		W:        weights(map[string]int{"read": 22, "hop": 2, "remove": 16, "replay": 12, "hold": 3, "reload": 4, "setinit": 2, "setnil": 2}),
 		Backends: []string{"mem", "mem", "trace", "prefix"}},
 	Obs:  Observers{Hash: true, NoStepWorkingHash: true},
 	Rule: "history of 20-70 steps incl. read-only calls applied to the real tree only (Get, Has, GetWithIndex, GetByIndex, Iterate, partial Iterator, GetProof/Membership/NonMembership on the working tree, GetVersionedProof, Hash, WorkingHash, ImmutableTree.Hash, GetVersioned, GetImmutable, partial Export), reopen/prune/rollback/export-import hops, restart at an older version + replay of the existing versions (idempotent re-commits) + continuation, InitialVersion in {unset,1,2,7,2^33}; WorkingHash, SaveVersion hash+version, Hash and the hash of every retained version are compared with the reference IAVL+ implementation after every step; non-trivial = reference performed >=1 rotation and >=1 removal, >=3 commits, >=1 read step while the working tree was dirty",
@@ -96,7 +96,7 @@ func TestC02(t *testing.T) { runWorldSpec(t, withLevel(specC02)) }
 var specC03 = &worldSpec{
 	Prop: "C03",
 	Profile: &Profile{MinSteps: 12, MaxSteps: 40,
-		W:        weights(map[string]int{"setnil": 0, "lvfo": 1, "dvf": 1, "prune": 5}),
+		W:        weights(map[string]int{"setnil": 0, "lvfo": 1, "dvf": 1, "prune": 5, "setinit": 2}),
 		Backends: []string{"mem"}},
 	Obs:  Observers{Proofs: true},
 	Rule: "history of 12-40 steps; after every step, for every retained non-empty version and the working tree and every probe key (all present keys; absent: below min, above max, neighbours, prefixes, extensions) the proof of the right kind must be produced and must verify with ics23.Verify(Non)Membership(IavlSpec) against the REFERENCE root; it must not verify for another value, another key, the opposite claim or the reference root of another retained version in which the claim is false; wrong-kind requests must error; on committed versions the tree's own VerifyMembership / VerifyNonMembership / VerifyProof accept its proofs and reject the opposite claim. non-trivial = some version with >=2 keys, both proof kinds exercised, and a proof path with nodes of >=2 versions; distinct = sha256 of the history",
@@ -196,7 +196,7 @@ func TestC13a(t *testing.T) { runWorldSpec(t, withLevel(specC13)) }
 // ---------------------------------------------------------------- C14 version bookkeeping
 var specC14 = &worldSpec{
 	Prop: "C14",
-	Profile: &Profile{MinSteps: 15, MaxSteps: 55, W: weights(mergeW(pruneWeights, map[string]int{"reopen": 12, "save": 26, "lvfo_invalid": 3, "reload": 6, "reload_invalid": 3})),
+	Profile: &Profile{MinSteps: 15, MaxSteps: 55, W: weights(mergeW(pruneWeights, map[string]int{"reopen": 12, "save": 26, "lvfo_invalid": 3, "reload": 6, "reload_invalid": 3, "setinit": 2})),
 		Backends: []string{"mem", "mem", "trace", "prefix"}},
 	Obs:  Observers{Versions: true, Fresh: true, Light: true},
 	Rule: "history of 15-55 steps (C04 profile + InitialVersion unset/1/2/7/63/64/127/128/8191/8192/2^31-1/2^33 configured by the option or by SetInitialVersion, reopen / LoadVersion on the live handle at older versions (out-of-range targets must fail and leave the tree as it was) and re-commit, both of drawn writes and of the exact recorded writes of the existing version); after every step and through a fresh handle after prune/rollback: commit numbers consecutive from 1 or InitialVersion; VersionExists(v), GetImmutable(v), GetVersioned(k,v), LoadVersion(v) on a throw-away handle for every v in {0,1} U [first-ever-1, latest+1], AvailableVersions, GetLatestVersion agree with the model range; re-commit of an existing number succeeds without effect iff the reference hashes are equal, else errors with a byte-identical store. non-trivial = >=1 prune or rollback of versions and >=1 reopen",
